@@ -215,4 +215,184 @@ theorem selectedFiles_nodup (ign : Str → Filemode → Bool) (acc : Str → Boo
       ((allFiles root [] node).map (·.1)) := List.Sublist.map _ List.filter_sublist
   exact (nodup_allFiles root [] node hw).sublist hsub
 
+/-! ## `canon` is a renaming, injective on the ids of the dump -/
+
+theorem indexIn_not_mem (i : Nat) : ∀ s : List Nat, i ∉ s → indexIn i s = s.length := by
+  intro s
+  induction s with
+  | nil => intro _; rfl
+  | cons j r ih =>
+    intro h
+    have hj : j ≠ i := fun e => h (by simp [e])
+    simp only [indexIn, hj, if_false, List.length_cons]
+    rw [ih (fun hm => h (by simp [hm]))]
+
+theorem indexIn_append_mem (i : Nat) (t : List Nat) : ∀ s : List Nat, i ∈ s → indexIn i (s ++ t) = indexIn i s := by
+  intro s
+  induction s with
+  | nil => intro h; simp at h
+  | cons j r ih =>
+    intro h
+    by_cases hj : j = i
+    · simp [indexIn, hj]
+    · simp only [List.cons_append, indexIn, hj, if_false]
+      rcases List.mem_cons.1 h with e | hm
+      · exact absurd e.symm hj
+      · rw [ih hm]
+
+theorem indexIn_append_new (i : Nat) (t : List Nat) : ∀ s : List Nat, i ∉ s → indexIn i (s ++ i :: t) = s.length := by
+  intro s
+  induction s with
+  | nil => intro _; simp [indexIn]
+  | cons j r ih =>
+    intro h
+    have hj : j ≠ i := fun e => h (by simp [e])
+    simp only [List.cons_append, indexIn, hj, if_false, List.length_cons]
+    rw [ih (fun hm => h (by simp [hm]))]
+
+/-- the position function is injective on the members of the list -/
+theorem indexIn_inj : ∀ (s : List Nat) (i j : Nat), i ∈ s → j ∈ s → indexIn i s = indexIn j s → i = j := by
+  intro s
+  induction s with
+  | nil => intro i j h; simp at h
+  | cons k r ih =>
+    intro i j hi hj e
+    by_cases hki : k = i
+    · by_cases hkj : k = j
+      · exact hki.symm.trans hkj
+      · simp only [indexIn, if_pos hki, if_neg hkj] at e
+        omega
+    · by_cases hkj : k = j
+      · simp only [indexIn, if_neg hki, if_pos hkj] at e
+        omega
+      · simp only [indexIn, if_neg hki, if_neg hkj, Nat.add_right_cancel_iff] at e
+        rcases List.mem_cons.1 hi with e1 | hi'
+        · exact absurd e1.symm hki
+        · rcases List.mem_cons.1 hj with e2 | hj'
+          · exact absurd e2.symm hkj
+          · exact ih i j hi' hj' e
+
+/-- the element at the position of a member is that member -/
+theorem getD_indexIn : ∀ (s : List Nat) (i : Nat), i ∈ s → s.getD (indexIn i s) 0 = i := by
+  intro s
+  induction s with
+  | nil => intro i h; simp at h
+  | cons k r ih =>
+    intro i h
+    by_cases hk : k = i
+    · simp [indexIn, hk]
+    · simp only [indexIn, hk, if_false]
+      rcases List.mem_cons.1 h with e | hm
+      · exact absurd e.symm hk
+      · simpa using ih i hm
+
+theorem finalSeen_prefix : ∀ (d : List Item) (s : List Nat), ∃ t, finalSeen s d = s ++ t := by
+  intro d
+  induction d with
+  | nil => intro s; exact ⟨[], by simp [finalSeen]⟩
+  | cons it rest ih =>
+    intro s
+    cases it with
+    | lit x => exact ih s
+    | ref i =>
+      simp only [finalSeen]
+      by_cases hc : s.contains i = true
+      · simp only [hc, if_true]; exact ih s
+      · simp only [hc, if_false, Bool.false_eq_true]
+        obtain ⟨t, ht⟩ := ih (s ++ [i])
+        exact ⟨i :: t, by rw [ht]; simp⟩
+
+theorem finalSeen_ids : ∀ (d : List Item) (s : List Nat) (i : Nat), i ∈ idsOf d → i ∈ finalSeen s d := by
+  intro d
+  induction d with
+  | nil => intro s i h; simp [idsOf] at h
+  | cons it rest ih =>
+    intro s i h
+    cases it with
+    | lit x => exact ih s i (by simpa [idsOf] using h)
+    | ref j =>
+      simp only [finalSeen]
+      simp only [idsOf, List.mem_cons] at h
+      rcases h with e | h
+      · subst e
+        obtain ⟨t, ht⟩ := finalSeen_prefix rest (if s.contains i then s else s ++ [i])
+        rw [ht]
+        by_cases hc : s.contains i = true
+        · simp only [hc, if_true]
+          exact List.mem_append_left _ (by simpa using hc)
+        · have hn : i ∉ s := by simpa using hc
+          simp [hn]
+      · exact ih _ i h
+
+/-- `canonAux` applies the position function of the final list -/
+theorem canonAux_eq_rename : ∀ (d : List Item) (s : List Nat),
+    canonAux s d = rename (fun i => indexIn i (finalSeen s d)) d := by
+  intro d
+  induction d with
+  | nil => intro s; rfl
+  | cons it rest ih =>
+    intro s
+    cases it with
+    | lit x =>
+      simp only [canonAux, rename, List.map_cons, finalSeen]
+      congr 1
+      exact ih s
+    | ref i =>
+      simp only [canonAux, rename, List.map_cons, finalSeen]
+      obtain ⟨t, ht⟩ := finalSeen_prefix rest (if s.contains i then s else s ++ [i])
+      congr 1
+      · congr 1
+        rw [ht]
+        by_cases hc : s.contains i = true
+        · simp only [hc, if_true]
+          exact (indexIn_append_mem i t s (by simpa using hc)).symm
+        · have hn : i ∉ s := by simpa using hc
+          simp only [hc, if_false, Bool.false_eq_true, List.append_assoc, List.singleton_append]
+          rw [indexIn_append_new i t s hn, indexIn_not_mem i s hn]
+      · exact ih _
+
+theorem idsOf_rename (f : Nat → Nat) : ∀ d : List Item, idsOf (rename f d) = (idsOf d).map f := by
+  intro d
+  induction d with
+  | nil => rfl
+  | cons it rest ih =>
+    cases it with
+    | lit x => simpa [rename, idsOf] using ih
+    | ref i => simpa [rename, idsOf] using ih
+
+/-- two renamings of two dumps that agree: the second dump is the first one relabelled through the positions -/
+theorem rename_eq_rename (f1 f2 : Nat → Nat) (L2 : List Nat) :
+    ∀ (d1 d2 : List Item), (∀ j, j ∈ idsOf d2 → j ∈ L2) → (∀ j, f2 j = indexIn j L2) →
+    rename f1 d1 = rename f2 d2 → d2 = rename (fun i => L2.getD (f1 i) 0) d1 := by
+  intro d1
+  induction d1 with
+  | nil =>
+    intro d2 _ _ h
+    cases d2 with
+    | nil => rfl
+    | cons _ _ => simp [rename] at h
+  | cons it rest ih =>
+    intro d2 hm hf h
+    cases d2 with
+    | nil => simp [rename] at h
+    | cons it2 rest2 =>
+      simp only [rename, List.map_cons, List.cons.injEq] at h
+      obtain ⟨hh, ht⟩ := h
+      have hrest := ih rest2 (fun j hj => hm j (by cases it2 <;> simp [idsOf, hj])) hf ht
+      simp only [rename, List.map_cons]
+      cases it with
+      | lit x =>
+        cases it2 with
+        | lit y => simp only at hh; rw [Item.lit.injEq] at hh; rw [hh]; congr 1
+        | ref j => simp at hh
+      | ref i =>
+        cases it2 with
+        | lit y => simp at hh
+        | ref j =>
+          simp only [Item.ref.injEq] at hh
+          congr 1
+          have hj : j ∈ L2 := hm j (by simp [idsOf])
+          simp only
+          rw [hh, hf j, getD_indexIn L2 j hj]
+
 end Cppcheck.Determinism
